@@ -12,7 +12,10 @@
 // See the License for the specific language governing permissions and
 // limitations under the License.
 
+#[cfg(not(foyer_verif))]
 use std::sync::atomic::AtomicU64;
+#[cfg(foyer_verif)]
+use foyer_common::verif::sync::atomic::{AtomicU64};
 
 use bytes::{Buf, BufMut};
 use foyer_common::error::{Error, ErrorKind, Result};
